@@ -58,7 +58,7 @@ class OutputBuffer:
         '''Saves output to buffer (if in buffered mode), or immediately prints to stdout otherwise.'''
 
         # If we're logging only 'warn' or above, and this is an 'info', ignore message, unless always_print is True (useful for printing informational lines regardless of the level setting).
-        if (always_print is False) and (self.get_level(level) < self.__level):
+        if (always_print is False) and (self.json is False) and (self.get_level(level) < self.__level):  # The level only filters the text report; with JSON output the document itself is written at the 'info' level and must always go through.
             return
 
         if self.use_colors and self.colors_supported and len(s) > 0 and level != 'info':
